@@ -20,86 +20,7 @@ import ChibiVerif.Lemmas.C20Lemmas
 import ChibiVerif.Lemmas.C20Calls
 
 namespace ChibiVerif.Lemmas.C20
-open ChibiVerif ChibiVerif.Codegen ChibiVerif.Effect ChibiVerif.Asm ChibiVerif.Ast
-
-/-- typing of a binary-operator node: both operands are long double or neither is, and the result
-    is long double exactly for long double arithmetic -/
-def binopTyped (i : NInfo) (op : BinOp) (lhs rhs : Node) : Bool :=
-  (isLD lhs.ty? == isLD rhs.ty?) && (isLD i.ty == (isLD lhs.ty? && !isCmp op))
-
-/-- the bit-field an assignment stores to (if any) is not a long double -/
-def bfOK (env : Env) (lhs : Node) : Bool :=
-  match bitfieldOf lhs with
-  | some m => !isLD (env.ty? m.ty)
-  | none => true
-
-def notNull : Node → Bool
-  | .null => false
-  | _ => true
-
-/-- the callee is not the builtin `alloca` (whose code lowers %rsp by design) -/
-def notAlloca : Node → Bool
-  | .var _ (some v) => v.name != some "alloca"
-  | _ => true
-
-/-- struct/union arguments have at least one byte (outside: known finding C20-empty-struct-arg) -/
-def structArgsOKb : NodeList → Bool
-  | .nil => true
-  | .cons a rest =>
-    (match a.ty? with
-     | some t => !t.isStructOrUnion || decide (1 ≤ t.size)
-     | none => true) && structArgsOKb rest
-
-mutual
-/-- value-producing expression in scope -/
-def covE (env : Env) : Node → Bool
-  | .nullExpr i => !isLD i.ty
-  | .num _ _ _ _ _ _ => true
-  | .neg i lhs => covE env lhs && (isLD i.ty == isLD lhs.ty?)
-  | .var _ _ => true
-  | .member _ lhs _ => covA env lhs
-  | .deref _ lhs => covE env lhs && !isLD lhs.ty?
-  | .addr i lhs => covA env lhs && !isLD i.ty
-  | .assign i lhs rhs => covA env lhs && covE env rhs && (isLD i.ty == isLD rhs.ty?) && bfOK env lhs
-  | .comma i lhs rhs => covE env lhs && covE env rhs && (isLD i.ty == isLD rhs.ty?)
-  | .cast _ lhs => covE env lhs
-  | .memzero i _ => !isLD i.ty
-  | .not i lhs => covE env lhs && !isLD i.ty
-  | .bitnot i lhs => covE env lhs && !isLD lhs.ty? && !isLD i.ty
-  | .binop i op lhs rhs => covE env lhs && covE env rhs && notNull lhs && binopTyped i op lhs rhs
-  | .exch i lhs rhs => covE env lhs && covE env rhs && !isLD lhs.ty? && !isLD rhs.ty? && !isLD i.ty
-  | .labelVal i _ _ => !isLD i.ty
-  | .funcall _ lhs _ _ args => covE env lhs && !isLD lhs.ty? && notAlloca lhs && covArgs env args
-      && structArgsOKb args
-  | _ => false
-/-- lvalue in scope (`gen_addr`) -/
-def covA (env : Env) : Node → Bool
-  | .var _ _ => true
-  | .deref _ lhs => covE env lhs && !isLD lhs.ty?
-  | .comma _ lhs rhs => covE env lhs && covA env rhs
-  | .member _ lhs _ => covA env lhs
-  | .vlaPtr _ _ => true
-  | .assign _ lhs rhs => covA env lhs && covE env rhs && !isLD rhs.ty? && bfOK env lhs
-  | .funcall i lhs _ _ args => covE env lhs && !isLD lhs.ty? && notAlloca lhs && covArgs env args
-      && structArgsOKb args && !isLD i.ty
-  | _ => false
-/-- argument list in scope -/
-def covArgs (env : Env) : NodeList → Bool
-  | .nil => true
-  | .cons a rest => covE env a && covArgs env rest
-end
-
-mutual
-/-- statement in scope -/
-def covS (env : Env) : Node → Bool
-  | .exprStmt _ lhs => covE env lhs
-  | .block _ body => covSs env body
-  | .asm_ _ _ => true
-  | _ => false
-def covSs (env : Env) : NodeList → Bool
-  | .nil => true
-  | .cons n rest => covS env n && covSs env rest
-end
+open ChibiVerif ChibiVerif.Codegen ChibiVerif.Effect ChibiVerif.Asm ChibiVerif.Ast ChibiVerif.C20Scope
 
 theorem bfX_zero {env : Env} {lhs : Node} (h : bfOK env lhs = true) : bfX env (bitfieldOf lhs) = 0 := by
   unfold bfOK at h
